@@ -193,11 +193,12 @@ def canon_key(k):
 class Ref:
     """Environment-based evaluation; `kludge` reproduces the known trailing-newline deviation (finding C04/#22)."""
 
-    def __init__(self, lib, kludge=False, depth_limit=40):
+    def __init__(self, lib, kludge=False, depth_limit=40, trim_first=None):
         self.lib = {}
         for name, body, pre in lib:
             self.lib[name] = body
-        self.kludge = kludge
+        self.kludge = kludge                      # one trailing newline of substituted values / nested-call args dropped
+        self.trim_first = kludge if trim_first is None else trim_first   # named values trimmed before expansion
         self.depth_limit = depth_limit
         self.unsupported = False
 
@@ -271,7 +272,7 @@ class Ref:
             if sp is not None:
                 k, v = sp
                 kk = canon_key(self.ev(k, env, depth, in_body)) if not self.is_pos_num(k) else int(render(k).strip())
-                ht[kk] = self.argtext(v, env, depth, in_body).strip() if not self.kludge else \
+                ht[kk] = self.argtext(v, env, depth, in_body).strip() if not self.trim_first else \
                     self.ev_named_value(v, env, depth, in_body)
             else:
                 ht[num] = self.argtext(a, env, depth, in_body)
@@ -323,8 +324,10 @@ class Ref:
         return self.arg(args, 3, env, depth, in_body)
 
     def pf_switch(self, args, env, depth, in_body):
+        # MediaWiki ParserFunctions::switch
         val = self.arg(args, 0, env, depth, in_body)
         found = False
+        default_found = False
         default = None
         last = None
         for a in args[1:]:
@@ -339,16 +342,23 @@ class Ref:
                 last = self.argtext(a, env, depth, in_body).strip()
                 if last == val:
                     found = True
+                elif last.lower() == "#default":
+                    default_found = True
                 continue
-            k = self.argtext(sp[0], env, depth, in_body).strip()
-            if found or k == val:
-                return self.argtext(sp[1], env, depth, in_body).strip()
-            if k.lower() == "#default":
-                default = sp[1]
             last = None
+            if found:
+                return self.argtext(sp[1], env, depth, in_body).strip()
+            k = self.argtext(sp[0], env, depth, in_body).strip()
+            if k == val:
+                return self.argtext(sp[1], env, depth, in_body).strip()
+            if default_found or k.lower() == "#default":
+                default = sp[1]
+                default_found = False
+        if last is not None:
+            return last
         if default is not None:
             return self.argtext(default, env, depth, in_body).strip()
-        return last or ""
+        return ""
 
 
 def normalise_out(s, nwmap=None):
